@@ -124,7 +124,7 @@ def gen_history(rnd, cfg, mode, nsteps):
              "genuine": 5 if sh.out else 0, "dup": 2 if sh.done else 0, "wrong": 2 if sh.out else 0,
              "third": 2 if sh.out and len(live) >= 3 else 0, "tothird": 2 if sh.out and len(live) >= 3 else 0,
              "callrs": 0.7 if sh.out or sh.done else 0.2, "sigrs": 0.5, "unsol": 0.8, "sig": 0.8, "name": 1.0,
-             "tick": ((5.0 if sh.out else 1.0) if nticks < 3 else 0) if timed else 0.15}
+             "tick": ((10.0 if sh.out else 2.0) if nticks < 3 else 0) if timed else 0.15}
         if mode == "c05":
             w.update({"name": 4, "sig": 3, "call": 6, "unsol": 2.5, "genuine": 3 if sh.out else 0, "dup": 0.5 if sh.done else 0,
                       "wrong": 0.5 if sh.out else 0, "third": 0.5 if w["third"] else 0, "tothird": 0.5 if w["tothird"] else 0})
@@ -194,7 +194,7 @@ def gen_history(rnd, cfg, mode, nsteps):
             sh.name_op(rnd.choice(live))
         elif kind == "tick":
             nticks += 1
-            d = rnd.choice((TICK_PART, TICK_PART, TICK_FULL)) if timed else 40
+            d = rnd.choice((TICK_PART, TICK_PART, TICK_FULL, TICK_FULL)) if timed else 40
             sh.ev.append("T.%d" % d)
             if timed and d == TICK_FULL:          # everything outstanding has expired: later replies are late replies
                 sh.done += sh.out
